@@ -360,15 +360,29 @@ def c18_server(path, ready_path=None):
 
 def c18_pipe_peer(path, role, script):
     """Named-pipe peer in its own process. script: list of ['send', spec] | ['recv'] ; returns digests of what it received."""
+    import faulthandler
+
     from mpservice.pipe import Client, Server
 
+    # observability for the parent's hang verdict: if this peer is still running after 40 s, its stacks go to a file next to the pipe
+    dump = open(os.path.join(os.path.dirname(os.path.dirname(path)), f'{role}.stacks'), 'w')  # not in the pipe's own directory: the library creates that
+    faulthandler.dump_traceback_later(40, file=dump, exit=False)
+    dump.write(f'{role} pid {os.getpid()} started\n')
+    dump.flush()
     p = (Server if role == 'server' else Client)(path)
     got = []
     for step in script:
         if step[0] == 'send':
             p.send(make_payload(step[1]))
+        elif step[0] == 'sleep':
+            time.sleep(step[1])
         else:
             got.append(digest(p.recv()))
+        dump.write(f'{role} step {len(got)} done: {step[0]}\n')
+        dump.flush()
+    faulthandler.cancel_dump_traceback_later()
+    dump.write(f'{role} script finished\n')
+    dump.close()
     return got
 
 
